@@ -430,9 +430,15 @@ if log:
 
 
 # ---------------------------------------------------------------------------
+from engine.harness import tier as _tier
 FORGED = ["builtins.str", "builtins.bytes", "enum.StrEnum", "builtins.int"]
+if _tier() == "thorough":
+    FORGED = FORGED + ["builtins.tuple", "enum.IntEnum", "collections.UserString"]
 SHAPES4 = ["(obj, fname)", "(obj, fname, (), ())", "(obj, obj, fname)", "(obj, fname, value)"]
 LIES = [False, True, "_private"]
+if _tier() == "thorough":
+    # more lies per nested question and more reported classes
+    LIES = [False, True, "_private", "exposed_ok", 0]
 INSPECT_LIE = ("__radd__", "__add__", "startswith", "__hash__", "__eq__", "__str__", "decode", "__contains__", "__len__", "__iter__")
 MAX_NESTED = 10
 
